@@ -1117,6 +1117,12 @@ func (b *BaseStore) storeListener(topic iface.PubSubTopic) error {
 			}
 
 			evt := e.(stores.EventWrite)
+			if evt.Address == nil || evt.Address.String() != b.Address().String() {
+				// the bus may be shared with other stores: only the writes
+				// of this store are announced on its topic
+				verifhook.Processed(b.EventBus(), sub.Name())
+				continue
+			}
 			verifhook.Begin("write.announce")
 			go func() {
 				// @TODO(gfanton): HandleEventWrite trigger a
